@@ -224,9 +224,15 @@ class BaseFileLock(abc.ABC):
 
         self._decrement_lock_counter()
 
+        # Levels of the in-process lock to drop: only this one for an
+        # inner release of a reentrant lock, every remaining one when the
+        # file lock itself is released (forced release from depth > 1)
+        levels = 1
+
         if self._lock_counter == 0 or force:
             lid = id(self)
             fn = self._lock_file
+            levels += self._lock_counter
 
             _logger.debug('Attempting to release lock %s on %s', lid, fn)
             try:
@@ -238,7 +244,8 @@ class BaseFileLock(abc.ABC):
                 _logger.info('Lock %s released on %s', lid, fn)
 
         try:
-            self._thread_lock.release()
+            for _ in range(levels):
+                self._thread_lock.release()
         except RuntimeError:  # not reentrant and already unlocked
             pass
 
